@@ -3,15 +3,12 @@
 Every object class offers
     instance(rng, n_msg, n_aad) -> dict with the logical inputs (bytes)
     present(S, inst, pres)      -> dict of results {"out", "tag", "verify"} under a presentation
-The canonical result is present() under canon_pres(): one call per stream, bytes, returned output.
+The canonical result is present() under the empty presentation {}: one call per stream, bytes, returned output.
 Crypto is imported lazily (child process only).
 """
 import importlib
 
 from . import present as P
-
-PresErrExpected = ()
-
 
 class PresErr(Exception):
     """A library call raised under a presentation."""
@@ -142,10 +139,6 @@ def _seg(pres, name, n):
     if s is None:
         return [(0, n, "bytes", "ret")]
     return s
-
-
-def canon_pres():
-    return {}
 
 
 # ============================================================================================
